@@ -138,7 +138,7 @@ func cmdCheck(args []string) int {
 	}
 	root := "/verif"
 	t0 := time.Now()
-	w, err := loadWorld("/repo", nil)
+	w, err := loadWorld(repoDir(), nil)
 	if err != nil {
 		// the tree does not build or a contract target disappeared: report as a violation of the property
 		rp := writeReplay(root, prop, "load", map[string]interface{}{"obligation": "load", "error": err.Error(),
